@@ -211,7 +211,7 @@ def _conservation(case, F, stats):
     V = []
     recs = case.recs
     meta = case.sc.meta.get("conserve", {})      # ufd idx -> owner slot (generator's promise: registered before loop, never deregistered)
-    if not meta and not case.sc.meta.get("hup") and not case.sc.meta.get("oneshot_fd"):
+    if not meta and not case.sc.meta.get("hup") and not case.sc.meta.get("oneshot_fd") and not case.sc.meta.get("err_fd"):
         return V
     w = {}
     ev = {}
@@ -241,6 +241,13 @@ def _conservation(case, F, stats):
             stats["hangup_fds"] = stats.get("hangup_fds", 0) + 1
         if n_e < n_w:
             V.append(("C03/event-lost", "descriptor %d of module %d: %d tokens were written before its peer closed, the handler received only %d events (a readable descriptor reporting hang-up is still readable)" % (u, owner, n_w, n_e)))
+    for u, owner in case.sc.meta.get("err_fd", {}).items():
+        if owner in st_bad or not any(r.k == "<" and r.op == "fd_hup" and r.args[0] == u and executed(r) and r.ret >= 0 for r in recs):
+            continue
+        if stats is not None:
+            stats["error_condition_fds_judged"] = stats.get("error_condition_fds_judged", 0) + 1
+        if ev.get((owner, u), 0) < 1:
+            V.append(("C03/event-lost", "descriptor %d of module %d entered an error condition (its peer went away) while the module was RUNNING and the loop ran on for several batches: its owner was never told" % (u, owner)))
     for u, owner in case.sc.meta.get("oneshot_fd", {}).items():
         if owner in st_bad or not w.get(u, 0):
             continue
